@@ -1,27 +1,41 @@
 /-
   rspdrive: line-protocol driver for the Lean models.
-  Input lines:   M <op> <args…>                 -> model output for the op
-                 S <op> <args…> => <impl out…>  -> spec verdict on the implementation's output: ok | bad <why>
-  One output line per input line. Unknown ops print `bad-op`.
+  Input lines:   M <op> <args…> [## <oracle transcript>]                 -> model output for the op
+                 S <op> <args…> [## <oracle transcript>] => <impl out…>  -> spec verdict on the implementation's output: ok | bad <why>
+  One output line per input line. Unknown ops print `bad-op`. The world
+  engine is stateful (`cfg` starts a new world).
 -/
-import Drive.Ops
+import Drive.WorldOps
 open Rsp
 
-partial def loop (h : IO.FS.Stream) (out : IO.FS.Stream) : IO Unit := do
+def worldOps : List String := ["cfg", "client", "rq", "reply", "writer", "tick", "reset", "srvstate", "pop", "rmclient", "radput"]
+
+partial def loop (h : IO.FS.Stream) (out : IO.FS.Stream) (st : Option Rsp.World.World) : IO Unit := do
   let line ← h.getLine
   if line.isEmpty then return ()
   let toks := (line.trimAscii.toString.splitOn " ").filter (· ≠ "")
-  let res := match toks with
-    | "M" :: op :: args => Drive.model op args
-    | "S" :: op :: rest =>
-      let (args, impl) := Drive.splitArrow rest
-      Drive.spec op args impl
-    | _ => "bad-op"
-  out.putStrLn res
-  loop h out
+  match toks with
+  | "M" :: op :: rest =>
+    let args := rest.takeWhile (· ≠ "##")
+    let tr := (rest.dropWhile (· ≠ "##")).drop 1
+    if worldOps.contains op then
+      let (st', res) := Drive.worldOp st op args tr
+      out.putStrLn res
+      loop h out st'
+    else
+      out.putStrLn (Drive.model op args)
+      loop h out st
+  | "S" :: op :: rest =>
+    let (lhs, impl) := Drive.splitArrow rest
+    let args := lhs.takeWhile (· ≠ "##")
+    out.putStrLn (Drive.spec op args impl)
+    loop h out st
+  | _ =>
+    out.putStrLn "bad-op"
+    loop h out st
 
 def main : IO Unit := do
   let stdin ← IO.getStdin
   let stdout ← IO.getStdout
-  loop stdin stdout
+  loop stdin stdout none
   stdout.flush
